@@ -382,6 +382,9 @@ def _derives_from_arg(F, B, l, seen):
 
 def run(ctx, rep):
     balance.rule_release_retarget(ctx, rep)  # release-then-store through `&mut Handle` must store on unwinding exits too
+    from . import c12 as _c12
+
+    _c12.union_dispatch(ctx, rep)  # ArcUnion owners are counted on the block of the Arc they were made from (tag arithmetic, per-variant types)
     balance.rule_bal(ctx, rep)
     balance.rule_unw(ctx, rep)  # histories include operations that unwind: the count must still equal the owners afterwards
     rule_delta(ctx, rep)
